@@ -237,6 +237,23 @@ def register(cat):
     bad("T.scale_size", "T", gen_scale, lambda eng, ops, st: ops[0].scale(ops[1], st["dim"]), lambda ops, st: ops[1].shape[0] != shp(ops[0])[st["dim"]])
     bad("S.scale_size", "S", gen_scale, lambda eng, ops, st: ops[0].scale(ops[1], np.array([st["dim"]])), lambda ops, st: ops[1].shape[0] != shp(ops[0])[st["dim"]])
 
+    def gen_scale_multi(c, r):
+        # two modes scaled at once: the factor must have exactly the shape of those modes
+        sh = shp(c.obj(r))
+        pairs = [(a, b) for a in range(len(sh)) for b in range(a + 1, len(sh)) if sh[a] != sh[b]]
+        if not pairs:
+            return None
+        a, b = c.g.choice(pairs)
+        kind = c.g.choice(["swapped", "flat"])
+        fac = rand_array(c.g, (sh[b], sh[a])) if kind == "swapped" else rand_array(c.g, (sh[a] * sh[b],))
+        return {"operands": [r, c.fresh(fac)], "dims": [a, b]}
+
+    def bad_scale_multi(ops, st):
+        want = tuple(shp(ops[0])[d] for d in st["dims"])
+        return tuple(ops[1].shape) != want
+
+    bad("T.scale_multi_mode_shape", "T", gen_scale_multi, lambda eng, ops, st: ops[0].scale(ttb.tensor(ops[1]) if ops[1].ndim > 1 else ops[1], np.array(st["dims"])), bad_scale_multi)
+
     def gen_contract(c, r):
         sh = shp(c.obj(r))
         pairs = [(i, j) for i in range(len(sh)) for j in range(len(sh)) if i != j and sh[i] != sh[j]]
